@@ -81,6 +81,7 @@ func c17Evaluate() *c17Result {
 			}
 		}
 		c17GoBindings(r, ver, e)
+		c17GRPCBehaviour(r, ver, e)
 	}
 	// clause: v3alpha is a wire-compatible superset of v3 — on the embedded descriptors and on the .proto sources
 	for _, pair := range []struct {
@@ -127,6 +128,54 @@ func c17Evaluate() *c17Result {
 	c17Systems(r, emb["v3"])
 	r.notes["flat_entries"] = map[string]int{"v3_descriptor": len(emb["v3"].Flatten()), "v3alpha_descriptor": len(emb["v3alpha"].Flatten())}
 	return r
+}
+
+// c17GRPCBehaviour invokes the generated bindings (in the dumper binary, which links the API package): every
+// handler must announce and reach its own method, every client stub must ask for its own method.
+func c17GRPCBehaviour(r *c17Result, ver string, t ptree.Tree) {
+	out, err := exec.Command(filepath.Join(binDir(), "dump"+ver), "grpc").Output()
+	if err != nil {
+		core.Harness("C17: dump%s grpc: %v", ver, err)
+	}
+	var probe struct {
+		Service string
+		Rows    []struct {
+			Method          string `json:"method"`
+			HandlerAnnounce string `json:"handler_announces"`
+			HandlerDirect   string `json:"handler_direct"`
+			HandlerViaIcpt  string `json:"handler_via_icpt"`
+			ClientInvokes   string `json:"client_invokes"`
+		}
+	}
+	if err := json.Unmarshal(out, &probe); err != nil {
+		core.Harness("C17: dump%s grpc: %v", ver, err)
+	}
+	seen := map[string]bool{}
+	for _, row := range probe.Rows {
+		seen[row.Method] = true
+		r.states++
+		r.compared += 4
+		full := "/" + probe.Service + "/" + row.Method
+		if row.HandlerAnnounce != full {
+			r.fail("grpc-run", ver+" handler "+row.Method+" announces", fmt.Sprintf("interceptors see FullMethod %q, want %q", row.HandlerAnnounce, full))
+		}
+		if row.HandlerDirect != row.Method || row.HandlerViaIcpt != row.Method {
+			r.fail("grpc-run", ver+" handler "+row.Method+" dispatches", fmt.Sprintf("reaches server method %q directly and %q through an interceptor", row.HandlerDirect, row.HandlerViaIcpt))
+		}
+		if row.ClientInvokes != full {
+			r.fail("grpc-run", ver+" client "+row.Method+" invokes", fmt.Sprintf("%q, want %q", row.ClientInvokes, full))
+		}
+	}
+	for _, s := range t.Services {
+		if probe.Service != t.Package+"."+s.Name {
+			r.fail("grpc-run", ver+" service name", fmt.Sprintf("%q, want %q", probe.Service, t.Package+"."+s.Name))
+		}
+		for _, m := range s.Methods {
+			if !seen[m.Name] {
+				r.fail("grpc-run", ver+" method "+m.Name, "declared in the service, absent from the running ServiceDesc and client")
+			}
+		}
+	}
 }
 
 func goName(rel string) string { return strings.ReplaceAll(rel, ".", "_") }
